@@ -3,7 +3,7 @@ import re
 import common
 
 LEAN_MODULES = ['OpusProps.C18']
-EXTENSIONS = ['C18stereo']   # extension slices merged into this property's check (tools/EXT_BRIEF.md)
+EXTENSIONS = ['C18stereo', 'C18chain']   # extension slices merged into this property's check (tools/EXT_BRIEF.md)
 GEN = ['SilkNlsf', 'SilkSynth']
 SOURCES = ['silk/NLSF_decode.c', 'silk/NLSF_stabilize.c', 'silk/NLSF2A.c', 'silk/LPC_fit.c',
            'silk/LPC_inv_pred_gain.c', 'silk/NLSF_unpack.c', 'silk/gain_quant.c', 'silk/decode_pitch.c',
